@@ -346,6 +346,7 @@ func (x *Exec) VerifyFunction(fn *ssa.Function, con *FuncContract) (obls []*Obl,
 		// free variables are pointers to the captured variable
 		env.bindLazyDeref(fv.Name(), v, fv.Type())
 	}
+	x.emitOwned(st, fn, con)
 	pre := st.Clone()
 	env.st = st
 	env.old = pre
